@@ -352,19 +352,19 @@ def rule_is_finished(ctx, crate, rule="R-IS-FINISHED"):
     b = K.find_one(ctx, crate, rule, r"state::ProgressState::is_finished")
     if not b:
         return
-    regs = K.variant_regions(b, crate, "state::Status")
     n = 0
-    for vs, reg, sb, pl in regs:
+    for v in K.variant_names(crate, "state::Status") or []:
+        R = K.variant_reach(b, crate, "state::Status", v)
+        if R == b.reachable():
+            continue
         vals = set()
-        for bb in reg:
-            for s in b.stmts(bb):
-                if s["k"] == "assign" and s["lhs"]["l"] == 0 and s["rv"]["k"] == "use" and s["rv"]["op"]["k"] == "const":
-                    vals.add(s["rv"]["op"].get("v"))
-        for v in vs:
-            n += 1
-            want = v != "InProgress"
-            ctx.check(vals == {want}, rule, "status:%s" % v, b.name, K.fn_loc(b), "is_finished() == %s for Status::%s" % (want, v),
-                      "is_finished() returns %s for Status::%s" % (sorted(vals), v), cfg)
+        for rb in b.return_blocks():
+            if rb in R:
+                vals |= K.bool_values_under(b, R, {"k": "copy", "place": {"l": 0, "p": []}}, rb)
+        n += 1
+        want = v != "InProgress"
+        ctx.check(vals == {want}, rule, "status:%s" % v, b.name, K.fn_loc(b), "is_finished() == %s for Status::%s" % (want, v),
+                  "is_finished() returns %s for Status::%s" % (sorted(map(str, vals)), v), cfg)
     ctx.floor(rule, n, 3, cfg, "Status arms in is_finished")
 
 
